@@ -34,7 +34,7 @@ CHECKS = {
  "C10": dict(engine="sched", technique="runtime monitoring: controlled scheduler over instrumented atomics/locks (hook H3), linearizability checking of recorded histories against Spec-M, 16-thread stress with conservation laws, TSan/Miri in the thorough tier",
    text="Every schedule of small cases (<= 4 calls, <= 3 threads) is enumerated depth-first, larger ones sampled (random, PCT); each history recorded at the client boundary must be linearizable w.r.t. Spec-M with matching final counters and verification text. Stress runs are judged by conservation (each chain position / ordered slot handed out exactly once).", ref="5 C10", note="Sequentially consistent interleavings at hook granularity only; Spec-M trusted as in engine A; scheduler in engines/harness/src/sched.rs."),
  "C11": dict(engine="crashbox", technique="runtime monitoring by fault injection: every (crash point x instance topology x met/unmet) scenario runs in a child process whose exit status and panic reports are the observed events; plus caught-user-panic histories judged by Spec-M",
-   text="All expressible combinations of 19 crash points and 15 topologies (652 scenarios) are run in child processes: the child must exit 101 (not die by SIGABRT), report the injected panic first and report no second panic. Histories with user panics injected into matcher/answer/real/default callbacks and caught are then continued and judged by Spec-M (mock usable, verification reflects matched calls).", ref="5 C11", note="std builds only. Output of the default panic hook is parsed. The table is finite and fully run; histories of the second stage are sampled."),
+   text="All expressible combinations of 19 crash points and 16 topologies (842 scenarios, incl. re-runs with an unwritable stderr) are run in child processes: the child must exit 101 (not die by SIGABRT), report the injected panic first and report no second panic. Histories with user panics injected into matcher/answer/real/default callbacks and caught are then continued and judged by Spec-M (mock usable, verification reflects matched calls).", ref="5 C11", note="std builds only. Output of the default panic hook is parsed. The table is finite and fully run; histories of the second stage are sampled."),
  "C12": dict(engine="sched", technique="runtime monitoring: drop/clone registry on instrumented value types, conservation checks over controlled schedules (hook H3 lock sites) and 8-thread stress; Miri/TSan/valgrind in the thorough tier",
    text="For 13 return shapes (plain, Option, and Deep Result/tuple/Option/Poll mixes with owned leaves) the registry must show: a single-use value reaches at most one caller under every enumerated/sampled schedule, every other request is refused by a mock panic, delivered values are alive, repeatable values are clones of the intact stored original, every constructed value is dropped exactly once.", ref="5 C12", note="The compile-time half (builder refuses to quantify non-Clone values) is sampled by the compile probe when present, not monitored at run time. Registry in engines/harness/src/toks.rs is trusted."),
  "C13": dict(engine="sched", technique="runtime monitoring: every live lent reference re-validated (address, identity, checksum, distinctness, not dropped) after every step of random lending sequences; drop-order checks over the registry; controlled schedules at the value-chain insertion site, stress, Miri/TSan/valgrind in the thorough tier",
@@ -50,7 +50,7 @@ CHECKS = {
  "C19": dict(engine="shapegen", technique="runtime monitoring of generated programs and Spec-M histories: panic texts parsed and compared with rustc's own Debug renderings computed at the call site, captured file:line and the generator's per-argument evaluation",
    text="(a) every generated method shape is called on mocks that must fail in three ways; the text must start with Trait::method(Debug of each argument, ? for non-Debug). (b) every rejected tuple of every generated matching! pattern: pattern named by source text and file:line (single-line and multi-line invocations); for guard-free single-alternative patterns the listed input positions must be exactly the rejecting ones, each with its value. (c) dynmock: every mock-induced panic kind names its method and pattern.", ref="5 C19", note=B_NOTE + " Known finding F4 (Impossible slot) is listed in known_findings.json."),
  "C20": dict(engine="mirrors", technique="runtime monitoring by differential testing: a plain struct and a Unimock replay the same random script through upstream provided methods; results, buffers and the logged required-method call sequences are compared",
-   text="15 families (std io Write/Read/BufRead/Seek, Hasher, Display/Debug directly and as supertraits of a user trait, embedded-hal delay/digital/i2c/spi/pwm, tokio and futures poll traits; Write and DelayNs additionally with the script turned into a chain of ordered next_call patterns and then() series, mixed with an exactly-counted unordered pattern, or into an unordered series with an open tail whose report() exit code is checked): 82 of the mirrored methods are driven; scripts contain short reads/writes, Interrupted, errors, EOF and Pending; strict and partial mocks alternate. The method list is parsed from src/mock/*.rs so that undriven methods are reported.", ref="5 C20", note="Trusted: the plain reference structs in engines/harness/src/bin/mirrors.rs implement only the required methods."),
+   text="16 families (std io Write/Read/BufRead/Seek, Hasher, Display/Debug directly and as supertraits of a user trait, embedded-hal delay/digital/i2c/spi/pwm, tokio and futures poll traits; Write and DelayNs additionally with the script turned into a chain of ordered next_call patterns and then() series, mixed with an exactly-counted unordered pattern, or into an unordered series with an open tail whose report() exit code is checked): 82 of the mirrored methods are driven; scripts contain short reads/writes, Interrupted, errors, EOF and Pending; strict and partial mocks alternate. The method list is parsed from src/mock/*.rs so that undriven methods are reported.", ref="5 C20", note="Trusted: the plain reference structs in engines/harness/src/bin/mirrors.rs implement only the required methods."),
 }
 
 LEVEL = {p: "exploration" for p in CHECKS}
